@@ -10,10 +10,15 @@ import (
 // make types.NewUID() return "u%015d" of a counter the harness resets per execution; other read
 // sizes get a deterministic counter stream. So every CUID/DUID in an execution is scripted.
 type scriptReader struct {
-	mu  sync.Mutex
-	n   int
-	oth uint64
+	mu    sync.Mutex
+	n     int
+	oth   uint64
+	mixed bool // the first three client ids differ in their first character only, across the classes of the id alphabet
 }
+
+// mixedCUIDs are the ids of replicas 0, 1, 2 in "mixid" worlds: 0 and 1 differ only in case; in byte order Z < _ < z,
+// while any order that folds case or ranks the classes (digits, punctuation, upper, lower) differently disagrees.
+var mixedCUIDs = []string{"Zq00000000000001", "zq00000000000001", "_q00000000000001"}
 
 const nanoAlphabet = "_-0123456789abcdefghijklmnopqrstuvwxyzABCDEFGHIJKLMNOPQRSTUVWXYZ"
 
@@ -27,6 +32,9 @@ func (s *scriptReader) Read(b []byte) (int, error) {
 	if len(b) == 16 {
 		s.n++
 		id := fmt.Sprintf("u%015d", s.n)
+		if s.mixed && s.n%2 == 1 && s.n/2 < len(mixedCUIDs) {
+			id = mixedCUIDs[s.n/2] // the 1st, 3rd and 5th id drawn are the client ids of replicas 0, 1, 2 (world.go checks it)
+		}
 		for i := range b {
 			for j := 0; j < len(nanoAlphabet); j++ {
 				if nanoAlphabet[j] == id[i] {
@@ -48,6 +56,7 @@ func resetUIDs() {
 	uidScript.mu.Lock()
 	uidScript.n = 0
 	uidScript.oth = 0
+	uidScript.mixed = false
 	uidScript.mu.Unlock()
 }
 
